@@ -245,6 +245,9 @@ func (fs *FS) OpenFile(name string, flag int, perm hackpadfs.FileMode) (afFile h
 
 // Remove implements hackpadfs.RemoveFS
 func (fs *FS) Remove(name string) error {
+	if name == "." {
+		return &hackpadfs.PathError{Op: "remove", Path: name, Err: hackpadfs.ErrInvalid}
+	}
 	file, err := fs.getFile(name)
 	if err != nil {
 		return fs.wrapperErr("remove", name, err)
@@ -266,6 +269,9 @@ func (fs *FS) Remove(name string) error {
 func (fs *FS) Rename(oldname, newname string) error {
 	linkErr := func(err error) error {
 		return &hackpadfs.LinkError{Op: "rename", Old: oldname, New: newname, Err: err}
+	}
+	if oldname == "." {
+		return linkErr(hackpadfs.ErrInvalid)
 	}
 	oldFile, oldErr := fs.getFile(oldname)
 	if oldErr != nil {
